@@ -179,7 +179,7 @@ def classes():
                         elif self.kind == "tally":
                             st.register(v)
                         elif self.kind == "wtally":
-                            st.register(1.0 + v, v)
+                            st.register(v - 1.0, v)
                         else:
                             st.register(t, v)
                 else:
@@ -188,7 +188,7 @@ def classes():
                     elif self.kind == "tally":
                         self.p.fire(self.et, v)
                     elif self.kind == "wtally":
-                        self.p.fire(self.et, (1.0 + v, v))
+                        self.p.fire(self.et, (v - 1.0, v))
                     elif self.et is CUSTOM:
                         self.p.fire(self.et, v)
                     else:
@@ -234,7 +234,9 @@ def expected(kind, kept, end=END):
     if kind == "wtally":
         c = S.WeightedTally("x")
         for t, v in kept:
-            c.register(1.0 + v, v)
+            # weight v - 1: the observations with value 1.0 carry weight zero
+            # (they still count in n, min and max)
+            c.register(v - 1.0, v)
         return snap(kind, c), None
     c = S.TimestampWeightedTally("x")
     for t, v in kept:
@@ -291,10 +293,22 @@ def run_real(clock, kind, obs, via, warm, mode):
         got2 = snap(kind, m.st2)
         active = st.isactive() if kind == "pers" else None
         active2 = m.st2.isactive() if kind == "pers" else None
+        # another model instance of the same class on its own simulator is
+        # set up in the meantime: it has its own statistics under the same keys
+        sim_b = simc("other")
+        m_b = M(sim_b, T, kind, obs[:1], via)
+        sim_b.initialize(m_b, SingleReplication("r", T(base_off), T(warm),
+                                                T(END)))
+        s.wait_quiescent()
         try:
-            same_obj = sim.model.get_output_statistic("k") is st
+            same_obj = sim.model.get_output_statistic("k") is st and \
+                m.get_output_statistic("k2") is m.st2 and \
+                m_b.get_output_statistic("k") is m_b.st and \
+                m_b.st is not st
         except Exception:  # noqa
             same_obj = False
+        sim_b.cleanup()
+        s.wait_quiescent()
         state = (sim.run_state.name, sim.replication_state.name)
         sim.cleanup()
         s.wait_quiescent()
